@@ -7,7 +7,8 @@
 //
 // Budget of a variant = init + max(factor x (baseline - init), floor) where init is the measured time of the part every
 // configuration shares (dataflow.NewInitializedAnalyzerState: SSA facts + pointer analysis) and baseline the time of the
-// same entry point on the same program under the baseline configuration, in the same process.  Analyses without a
+// same entry point on the same program under the baseline configuration, in the same process (taint-escape: taint + the
+// stand-alone escape analysis).  Analyses without a
 // configuration variant get factor x the taint baseline.  On a timeout the process prints the RES line and exits with
 // status 3 (the stuck goroutine cannot be stopped); the caller re-invokes with -only for the remaining analyses.
 //
@@ -249,17 +250,17 @@ func main() {
 			{"taint-fs", "taint", taintJob(true, false, false)},
 			{"taint-ondemand", "taint", taintJob(false, true, false)},
 			{"taint-fs-ondemand", "taint", taintJob(true, true, false)},
-			{"taint-escape", "taint", taintJob(false, false, true)},
 			{"backtrace", "", backJob(false, false)},
 			{"backtrace-fs", "backtrace", backJob(true, false)},
 			{"backtrace-ondemand", "backtrace", backJob(false, true)},
-			{"escape", "taint", func() error {
+			{"escape", "", func() error {
 				s, err := newState()
 				if err != nil {
 					return err
 				}
 				return escape.InitializeEscapeAnalysisState(s)
 			}},
+			{"taint-escape", "taint+escape", taintJob(false, false, true)},
 			{"reachability", "taint", func() error {
 				s, err := newState()
 				if err != nil {
@@ -289,13 +290,15 @@ func main() {
 			if j.baseline == "" {
 				budget = initT*3 + *factor*(*floor) // a baseline has no reference: generous absolute bound
 			} else {
-				b, ok := base[j.baseline]
-				if !ok {
-					b = initT
-				}
-				extra := b - initT
-				if extra < 0 {
-					extra = 0
+				extra := 0.0
+				for _, bn := range strings.Split(j.baseline, "+") {
+					b, ok := base[bn]
+					if !ok {
+						b = initT
+					}
+					if b > initT {
+						extra += b - initT
+					}
 				}
 				budget = initT*1.5 + maxf(*factor*extra, *floor)
 			}
